@@ -473,6 +473,14 @@ type Acct struct {
 }
 
 func acctPID(cfg *Config, n int) (pid, email string) {
+	if cfg.CaseTwinPIDs && n%2 == 1 {
+		// the odd accounts are the case twins of their even neighbours: to a
+		// case-sensitive user store "U0@x.co" and "u0@x.co" are two people
+		c2 := *cfg
+		c2.CaseTwinPIDs = false
+		p0, e0 := acctPID(&c2, n-1)
+		return strings.ToUpper(p0[:1]) + p0[1:], strings.ToUpper(e0[:1]) + e0[1:]
+	}
 	email = fmt.Sprintf("u%d@x.co", n)
 	if cfg.OddPIDs {
 		email = []string{"u;%d@x.co", "semi;;colon%d@x.co", ";%d@x.co", "u%d;@x.co"}[n%4]
@@ -498,6 +506,7 @@ func NewWorld(t *testing.T, cfg Config, seed uint64, concurrent bool) *World {
 		w.sched = &seqSched{driver: goid(), kids: map[uint64]*kid{}}
 	}
 	w.rand = &seededReader{rng: NewRng(seed ^ 0xa5a5a5a5deadbeef)}
+	w.rand.zeroTail = cfg.ZeroTailRand
 	w.rand.onRead = func() { w.seam("rand.read", "") }
 	w.mailRng = NewRng(seed ^ 0x51074a11)
 	w.origRand = rand.Reader
